@@ -282,3 +282,16 @@ Proof.
   intros R Hwf Hw F Eg Hs Hh Hk.
   eapply c05_notify_timeout; eauto. eapply group_fires_at; eauto.
 Qed.
+
+(** a child that reported SUCCESS is final for its own reports: whatever the group's status, any further
+    receipt for it (success, failure, rollback, unknown kind) is refused with a state error *)
+Theorem succeeded_child_final sorted t i g gi r :
+  tm_rec t i = None -> tm_child t i = Some g -> tm_glob t g = Some gi ->
+  child_lookup i (g_children gi) = Some ST_SUCCESS ->
+  tm_report cfg_fixed sorted t i r = Some (TmErr E_STATE).
+Proof.
+  intros Hr Hc Hg Hl. unfold tm_report. rewrite Hr, Hc, Hg, Hl.
+  assert (Hf : forall ev, set_fsm ST_SUCCESS ev = None) by (intro ev; apply set_fsm_final; reflexivity).
+  unfold change_multi. cbn [d_fail_after_success cfg_fixed]. rewrite Hl.
+  destruct ((g_state gi =? ST_BEGIN) && (r =? 2)); rewrite Hf; reflexivity.
+Qed.
